@@ -13,7 +13,7 @@
 #define HTTP_CHUNKED_CLIENT_STUBS_H
 
 size_t GD, GB;                      /* ghost indices relative to the start of a digit run */
-size_t GL;                          /* ghost position: "where the line feed of the size line will turn out to be" (acceptance clause U5) */
+/* GL (shims/iora_sv_find.h): ghost position "where the line feed of the size line will turn out to be" (acceptance clause U5) */
 size_t G_pfu_calls /* saturates at 2 */, G_pfu_off, G_pfu_len;
 _Bool G_pfu_ok;
 uint64_t G_pfu_val;
